@@ -137,7 +137,7 @@ func init() {
 		},
 		Harnesses: []harnessSpec{
 			{Name: "VxC29", Pkg: "github.com/goplus/xgo/tpl", Files: tplFiles,
-				Quick: map[string]int{"D": 1, "ATOMS": 6, "LEAFBIN": 1, "NB": 2, "NTOK": 3}, Thorough: map[string]int{"D": 1, "ATOMS": 7, "LEAFBIN": 0, "NB": 4, "NTOK": 4},
+				Quick: map[string]int{"D": 1, "ATOMS": 6, "LEAFBIN": 1, "NB": 2, "NTOK": 2}, Thorough: map[string]int{"D": 1, "ATOMS": 7, "LEAFBIN": 0, "NB": 4, "NTOK": 4},
 				MaxSteps: 300_000},
 			{Name: "VxC29", Pkg: "github.com/goplus/xgo/tpl", Files: tplFiles,
 				Quick: map[string]int{"D": 2, "ATOMS": 4, "LEAFBIN": 1, "NB": 1, "NTOK": 1}, Thorough: map[string]int{"D": 2, "ATOMS": 6, "LEAFBIN": 1, "NB": 2, "NTOK": 2},
@@ -171,6 +171,22 @@ func init() {
 		},
 		Harnesses: []harnessSpec{
 			{Name: "VxC31", Pkg: "github.com/goplus/xgo/tpl/parser", Files: []string{"c31/c31.go"}, Quick: map[string]int{"NTOK": 4}, Thorough: map[string]int{"NTOK": 5}},
+		},
+	})
+
+	// ---------------------------------------------------------------- C24
+	register(&checkSpec{
+		ID:   "C24",
+		Rule: "scripts assembled from up to K statements chosen by symbolic selectors out of 16 statement templates (function/method declarations with comments and result lists, const/type/var incl. parenthesized blocks, assignments, calls, function-literal calls and assignments, if-blocks, commented statements) joined by symbolic separators (newline, blank line, semicolon); chunk boundaries and classes are known by construction and give the expected output",
+		Assumptions: []string{
+			"bound: at most K top-level statements from the 16 templates and 3 separators; other statement shapes are outside the claim",
+			"FMT=1: the SourceEx clause runs the real format.Source (parser, printer, text/tabwriter) in the engine on the original, on the rearrangement and through SourceEx",
+		},
+		Harnesses: []harnessSpec{
+			{Name: "VxC24", Pkg: "github.com/goplus/xgo/format/formatutil", Files: []string{"c24/c24.go"},
+				Quick: map[string]int{"K": 3, "NT": 16, "FMT": 0}, Thorough: map[string]int{"K": 4, "NT": 16, "FMT": 0}, MaxSteps: 20_000_000},
+			{Name: "VxC24", Pkg: "github.com/goplus/xgo/format/formatutil", Files: []string{"c24/c24.go"},
+				Quick: map[string]int{"K": 2, "NT": 16, "FMT": 1}, Thorough: map[string]int{"K": 3, "NT": 16, "FMT": 1}, MaxSteps: 20_000_000},
 		},
 	})
 }
